@@ -435,9 +435,11 @@ def check_path_writable(path: str) -> bool:
     try:
         if path.endswith("\\") or path.endswith("/"):
             path = os.path.join(path, ".torrent")
+        existed = os.path.exists(path)
         with open(path, "ab") as _:
             pass
-        os.remove(path)
+        if not existed:
+            os.remove(path)
     except PermissionError as err:  # pragma: nocover
         directory = os.path.dirname(path)
         message = f"Target directory is not writeable {directory}"
